@@ -1478,6 +1478,8 @@ def run(ctx):
         if origin == 'gen':
             res.count('path.' + case['path'])
             res.count('starts=%d' % len(out['gens']))
+            if case['path'] == 'dsl' and any(f.get('var') for mo in case['mods'] for _, f in mo['dsl']):
+                res.count('dsl.file-shares-a-param-object')
         for g in out['gens']:
           for mo in g['mods']:
             model, judge = ans[mo['pos']], ans[mo['pos'] + 1]
